@@ -4,8 +4,8 @@
     - [hyps_read]: the internal subset that is read back satisfies [dtd_hyps] (simple entity values, no declaration
       of a predefined name, distinct entity / notation names, normalized public identifiers: all demanded by [valid],
       the exclusion of (g) and [accepted_profile]);
-    - [good_read]: the per-element condition [attrs_okb] (no #REQUIRED definition without a specified attribute: D36;
-      no default value for a specified namespace declaration) holds on the tree that is read back when it holds on the
+    - [good_read]: the per-element condition [attrs_okb] (no #REQUIRED definition without a specified attribute: D36)
+      holds on the tree that is read back when it holds on the
       canonical tree: it depends on the names of the attributes (a permutation) and on the names and kinds of the
       definitions only.  [Known_ATTR d] is its negation on the canonical tree, a decidable predicate of [d]. *)
 From Coq Require Import List NArith Arith Lia Bool Permutation.
@@ -131,10 +131,7 @@ Proof.
   intros Hp. unfold D.attrs_okb. pose proof (attdefs_R f' en Hstd l l' el Hl) as HR.
   induction HR as [|x y D0 D' [Hxy Hk] _ IH]; [reflexivity|]. cbn [forallb]. rewrite IH. f_equal.
   rewrite <- Hxy. destruct (snd x) as [| |fx v]; destruct (snd y) as [| |fy w]; try destruct Hk; try reflexivity.
-  - pose proof (mem_filter_names (fst (fst x)) (fun n => negb (D.is_ns_name n)) b1) as E1. pose proof (mem_filter_names (fst (fst x)) (fun n => negb (D.is_ns_name n)) b2) as E2.
-    cbv beta in E1, E2. unfold W.mem, mem in *. rewrite E1, E2. apply existsb_perm. exact Hp.
-  - f_equal. pose proof (mem_filter_names (fst (fst x)) D.is_ns_name b1) as E1. pose proof (mem_filter_names (fst (fst x)) D.is_ns_name b2) as E2.
-    unfold W.mem, mem in *. rewrite E1, E2. apply existsb_perm. exact Hp.
+  unfold W.mem, mem. apply existsb_perm. exact Hp.
 Qed.
 
 Lemma okb_same el atts : D.attrs_okb l' el atts = D.attrs_okb sub0 el atts.
